@@ -16,7 +16,6 @@
 package zsimrt
 
 import (
-	_ "unsafe" // go:linkname
 	"fmt"
 	"hash"
 	"hash/fnv"
@@ -26,6 +25,7 @@ import (
 	"sync"
 	"sync/atomic"
 	"time"
+	_ "unsafe" // go:linkname
 )
 
 // G is a goroutine parked at a scheduling point, waiting for the driver.
